@@ -155,6 +155,9 @@ type Node struct {
 	DeferHandBack bool
 	Up            bool
 	Wedged        bool // a delivery never returned (see AddBlock)
+	// Veto: hashes of blocks the permissive consensus refuses in IsBlockValid (survives restarts:
+	// it stands for a property of the block, not for node state)
+	Veto map[string]bool
 	sysctx        system.VerifCtx
 	dpctx         dpos.VerifCtx
 	Consensus     string // "dpos" or "permissive"
@@ -275,7 +278,7 @@ func (n *Node) Boot() {
 	n.DP.VerifLoad()
 	n.LpbNo = n.DP.VerifBootLpbNo()
 	if n.Consensus == "permissive" {
-		n.CS.SetChainConsensus(&Permissive{DPoS: n.DP})
+		n.CS.SetChainConsensus(&Permissive{DPoS: n.DP, N: n})
 	} else {
 		n.CS.SetChainConsensus(n.DP)
 	}
